@@ -252,6 +252,23 @@ func runC02(c *ctx) {
 	if c.thorough() {
 		n = 5000
 	}
+	// corpus: distinct type/ID pairs whose concatenation coincides ("tag"+"s1" = "tags"+"1"), any order
+	{
+		ta := typeSpec{name: "tag", fields: []fieldSpec{{name: "a", code: 1}}}
+		tb := typeSpec{name: "tags", fields: []fieldSpec{{name: "a", code: 1}}}
+		sc := schemaSpec{types: []typeSpec{ta, tb}, wrapped: map[string]bool{}}
+		incs := []resSpec{{tn: "tag", ops: []setOp{{"id", "s1"}, {"a", "one"}}}, {tn: "tags", ops: []setOp{{"id", "1"}, {"a", "two"}}}, {tn: "tags", ops: []setOp{{"id", "2"}, {"a", "three"}}},
+			{tn: "tag", ops: []setOp{{"id", "1"}, {"a", "four"}}}}
+		for _, order := range [][]int{{0, 1, 2}, {1, 0, 2}, {2, 1, 0}, {3, 1, 0}, {0, 3}} {
+			d := docSpec{sc: sc, dataKind: "resource", urlFrags: []string{"tag", "x"}, prepath: "/p",
+				data:   []resSpec{{tn: "tag", ops: []setOp{{"id", "x"}, {"a", "0"}}}},
+				fields: map[string][]string{"tag": {"a"}, "tags": {"a"}}, relData: map[string][]string{}}
+			for _, i := range order {
+				d.included = append(d.included, incs[i])
+			}
+			c02Case(c, d, "corpus joined keys", "C02")
+		}
+	}
 	for i := 0; i < n; i++ {
 		d := randDoc(c.r)
 		// the round trip speaks about documents whose field selection is complete
